@@ -215,3 +215,15 @@ fn is_subsequence(outer: &[Joints], inner: &[Joints], coll: &[bool]) -> bool {
     let want: Vec<&Joints> = inner.iter().zip(coll).filter(|(_, c)| !**c).map(|(q, _)| q).collect();
     want.len() == outer.len() && want.iter().zip(outer).all(|(a, b)| (0..6).all(|i| a[i].to_bits() == b[i].to_bits()))
 }
+
+/// A robot with shape around given kinematics and body: built by the library's constructor (tiny placeholder meshes)
+/// and then given its two public fields - a struct literal would stop compiling as soon as the struct gains a field.
+pub fn kws_from(kinematics: std::sync::Arc<dyn Kinematics>, body: rs_opw_kinematics::collisions::RobotBody) -> KinematicsWithShape {
+    let tiny = || { let pose = nalgebra::Isometry3::identity(); scene::local_mesh(&WBox { c: [0.0, 0.0, 0.0], h: [0.001, 0.001, 0.001] }, false, &pose) };
+    let safety = SafetyDistances { to_environment: 0.0, to_robot_default: 0.0, special_distances: HashMap::new(), mode: CheckMode::NoCheck };
+    let mut kws = KinematicsWithShape::with_safety(Parameters::irb2400_10(), Constraints::new([-1.0; 6], [1.0; 6], BY_PREV), std::array::from_fn(|_| tiny()), tiny(),
+        nalgebra::Isometry3::identity(), tiny(), nalgebra::Isometry3::identity(), vec![], safety);
+    kws.kinematics = kinematics;
+    kws.body = body;
+    kws
+}
